@@ -106,7 +106,7 @@ def check_case(case):
     want_dtype = {None: None, 'int': int, 'float32': np.float32, 'bool': bool}[case.get('dtype')]
     obj = CO.make_object(kind, desc, strict=case.get('strict', False), dtype=want_dtype, strict_rep=case.get('strict_rep', 0))
     res = Result(classes=['object:' + kind])
-    if want_dtype is not None and kind != 'container':
+    if want_dtype is not None and 'container' not in kind:
         # created with a default dtype: the class's own variables carry it from the start
         res.tag('created-with-dtype:' + case['dtype'])
         for nm in type(obj).NAMES:
@@ -148,7 +148,7 @@ def check_case(case):
             if vals.shape != stack.shape or not same_array(vals, stack):
                 res.fail(f'invariant/values-stack/op={op[0]}', f'{kind}: after step {step} {op}: values {vals!r} != stack of rows')
             own = len(names) * n
-            size = obj.size if kind != 'linker' else obj.sizes[obj.name]
+            size = obj.size if 'linker' not in kind else obj.sizes[obj.name]
             if size != own:
                 res.fail(f'invariant/size/op={op[0]}', f'{kind}: after step {step} {op}: size {size}, {len(names)} x {n}')
         except Exception as e:  # noqa: BLE001
@@ -208,6 +208,8 @@ def check_case(case):
                 verdict = 'ok'
             elif k == 'inplace':
                 name = CO.pick_name(obj, op[1])
+                if name not in vs:
+                    raise Reject()          # (an object without variables: there is no series to write into)
                 target, predicted = name, rule_index(shadow[name], op[2] % n, CO.dec_scalar(op[3]))
                 verdict = 'ok'
             elif k == 'add_variable':
@@ -218,7 +220,7 @@ def check_case(case):
                     verdict = 'any'
                 else:
                     dtype = CO.DTYPES[op[3]]
-                    if dtype is None and kind != 'container':
+                    if dtype is None and 'container' not in kind:
                         dtype = obj.__dict__['dtype']
                     target, predicted = name, rule_add(CO.dec_operand(op[2]), dtype, n)
                     verdict = 'ok'
@@ -229,7 +231,8 @@ def check_case(case):
             elif k == 'values':
                 # documented: the replacement is a scalar or a 2-D array "with identical dimensions to `values`"
                 value = CO.dec_operand(op[1])
-                if isinstance(value, np.ndarray) and value.shape != (len(CO.value_names(obj)), n):
+                # (without any variable the stack has no rows, whatever its nominal shape: nothing is asserted then)
+                if isinstance(value, np.ndarray) and CO.value_names(obj) and value.shape != (len(CO.value_names(obj)), n):
                     verdict = 'reject-bulk'
         except Reject as r:
             verdict = 'reject' if r.reason == 'fit' else 'reject-value'
@@ -281,7 +284,11 @@ def check_case(case):
             elif set(obj.__dict__) - keys_before or len(obj.__dict__['_attributes']) != n_attrs_before:
                 res.fail(f'strict/attribute-created/op={k}', f'{detail}: __dict__ gained {sorted(set(obj.__dict__) - keys_before)}, '
                          f'attributes {obj.__dict__["_attributes"][n_attrs_before:]}')
-            elif op[1][0] == 'near':
+            elif isinstance(out.exc, AttributeError) and "Did you mean: '" in str(out.exc) and \
+                    str(out.exc).split("Did you mean: '")[1].split("'")[0] not in CO.value_names(obj) + list(vs):
+                # "reported with the closest variable": a suggestion, when there is one, names a variable of the object
+                res.fail('strict/suggestion-is-not-a-variable', f'{detail}: message {out.exc}; variables {CO.value_names(obj)}')
+            elif op[1][0] == 'near' and vs:
                 orig = vs[op[1][1] % len(vs)]
                 lowers = [v.lower() for v in vs]
                 if lowers.count(orig.lower()) == 1 and name.lower() == orig.lower() and orig in CO.value_names(obj) \
@@ -492,6 +499,19 @@ def gen_singles_and_pairs(pairs):
                     sub = ops[::3]
                     for a, b in itertools.product(sub, repeat=2):
                         yield {'kind': kind, 'span': desc, 'strict': False, 'ops': [a, b]}
+        # objects that start without any variable (a new container, a bare model, a linker without core variables)
+        for kind in ('empty-container', 'empty-model', 'empty-linker'):
+            for desc in SPANS[:3]:
+                n = len(spans.labels(desc))
+                firsts = [['add_variable', ['new', 'Q'], {'scalar': 1}, None], ['setattr', ['new', 'Q'], {'scalar': 1}],
+                          ['setattr', ['new', 'stat'], {'scalar': 1}], ['setattr', ['new', 'iteration'], {'list': [1] * n}],
+                          ['values', {'scalar': 4}], ['values', {'np': [[1.0] * n], 'dtype': 'float'}], ['add_attribute', 'note', 1],
+                          ['setitem', ['new', 'Q'], {'scalar': 1}], ['strict', True], ['replace_values', [[['new', 'Q'], {'scalar': 1}]]]]
+                for strict in (False, True):
+                    for a in firsts:
+                        yield {'kind': kind, 'span': desc, 'strict': strict, 'ops': [a]}
+                        for b in firsts[:4]:
+                            yield {'kind': kind, 'span': desc, 'strict': strict, 'ops': [a, b]}
     return gen
 
 
@@ -502,7 +522,7 @@ def strategy():
     def cases(draw):
         desc = draw(st.sampled_from(SPANS))
         n = len(spans.labels(desc))
-        return {'kind': draw(st.sampled_from(['container', 'container', 'model', 'linker'])), 'span': desc,
+        return {'kind': draw(st.sampled_from(['container', 'container', 'model', 'linker', 'empty-container', 'empty-model', 'empty-linker'])), 'span': desc,
                 'strict': draw(st.booleans()), 'ops': draw(st.lists(CO.op_strategy(n), min_size=1, max_size=25)),
                 'dtype': draw(st.sampled_from([None, None, None, 'int', 'float32', 'bool'])),
                 'strict_rep': draw(st.sampled_from([0, 0, 1, 2]))}
